@@ -290,13 +290,21 @@ func (c *Client) disconnected() bool {
 }
 
 func (c *Client) closeAndDelSession() {
-	c.broker.sessMgr.delLocal(c.info.cid)
-	if c.session.cleanSession() {
-		c.broker.sessMgr.delDB(c.info.cid)
-	}
-
 	topics, _, _ := c.session.allSubscribes()
-	c.broker.topicMgr.unsubscribe(topics, c.info.cid)
+
+	// The session, its stored copy and the subscriptions are keyed by client id. When another
+	// connection has taken over the id they belong to that connection, so only the connection
+	// still registered under the id (or the last one, when nothing is registered any more) may
+	// remove them. The broker lock makes the test atomic with the takeover in handleConn.
+	c.broker.Lock()
+	if cur, ok := c.broker.clients[c.info.cid]; !ok || cur == c {
+		c.broker.sessMgr.delLocal(c.info.cid)
+		if c.session.cleanSession() {
+			c.broker.sessMgr.delDB(c.info.cid)
+		}
+		c.broker.topicMgr.unsubscribe(topics, c.info.cid)
+	}
+	c.broker.Unlock()
 
 	c.close()
 }
